@@ -21,7 +21,7 @@ import sys
 import types
 from typing import Any
 
-from . import core
+from . import core, modstate
 from .core import Violation, digest
 
 _MODS: dict[str, Any] = {}
@@ -35,6 +35,7 @@ def _mod(name: str):
 
 
 def build(modname: str, cfg: Any, history: list):
+    modstate.reset()
     mon = _mod(modname).make(cfg)
     for ev in history:
         mon.apply(ev)
@@ -62,19 +63,22 @@ def _expand(job):
     listen() generator; each outgoing transition then runs on a deep copy of that live state."""
     modname, cfg, history = job
     base = build(modname, cfg, history)
+    g = modstate.guard()
+    base_mod = g.diff()  # process-global library state is part of the state
     events = list(base.events())
     out = []
     for ev in events:
+        g.restore(base_mod)
         mon = fork(base)
         viols = mon.apply(ev)
-        out.append((ev, digest(mon.key()), viols, bool(getattr(mon, "nontrivial", False))))
+        out.append((ev, digest((mon.key(), g.key())), viols, bool(getattr(mon, "nontrivial", False))))
     return out
 
 
 def _root_key(job):
     modname, cfg, history = job
     mon = build(modname, cfg, history)
-    return digest(mon.key())
+    return digest((mon.key(), modstate.guard().key()))
 
 
 def search(ctx: core.Ctx, modname: str, cfgs: list, max_depth: int, max_states: int | None = None, label=None) -> dict:
@@ -145,7 +149,7 @@ def _search_one(job):
     """Sequential BFS of one cfg inside a worker (used when there are many small state spaces)."""
     modname, cfg, max_depth = job
     base0 = build(modname, cfg, [])
-    seen = {digest(base0.key())}
+    seen = {digest((base0.key(), modstate.guard().key()))}
     frontier = [[]]
     depth = trans = nontriv = 0
     viols_out = []
@@ -189,6 +193,7 @@ def search_many(ctx: core.Ctx, modname: str, cfgs: list, max_depth: int) -> dict
 def replay_history(modname: str, data: dict) -> dict:
     """Plain replay of a recorded history (no explorer): returns per-step violations."""
     cfg, history = data["cfg"], data["history"]
+    modstate.reset()
     mon = _mod(modname).make(cfg)
     found = []
     trace = []
